@@ -3,9 +3,9 @@ CONSTANTS
   Hosts = {h1, h2}
   MaxFails = 3
   MaxTimeout = 3
-  MaxTime = 7
-  MaxRec = 4
-  Steps <- StepsBig
+  MaxTime = 5
+  MaxRec = 3
+  Steps <- StepsSmall
 INVARIANT Inv
 PROPERTY QueriesPure Monotone
 CONSTRAINT Bound
